@@ -246,17 +246,26 @@ func errNeqNil(errv ssa.Value) ssa.Value {
 			return bo
 		}
 	}
-	// named result: err stored to an alloc then reloaded
+	// named result / reused err variable: errv is stored to a cell and reloaded; the test that reads *this* store
+	// (the cell may hold the results of other calls at other times)
 	for _, ref := range *errv.Referrers() {
-		if st, ok := ref.(*ssa.Store); ok {
-			if al, ok := st.Addr.(*ssa.Alloc); ok {
-				for _, r2 := range *al.Referrers() {
-					if ld, ok := r2.(*ssa.UnOp); ok && ld.Op == token.MUL {
-						for _, r3 := range *ld.Referrers() {
-							if bo, ok := r3.(*ssa.BinOp); ok && bo.Op == token.NEQ && isNilConst(bo.Y) {
-								return bo
-							}
-						}
+		st, ok := ref.(*ssa.Store)
+		if !ok {
+			continue
+		}
+		al, ok := st.Addr.(*ssa.Alloc)
+		if !ok {
+			continue
+		}
+		for _, r2 := range *al.Referrers() {
+			ld, ok := r2.(*ssa.UnOp)
+			if !ok || ld.Op != token.MUL || reachingStore(ld) != st {
+				continue
+			}
+			for _, r3 := range *ld.Referrers() {
+				if bo, ok := r3.(*ssa.BinOp); ok && (bo.Op == token.NEQ || bo.Op == token.EQL) && isNilConst(bo.Y) {
+					if bo.Op == token.NEQ {
+						return bo
 					}
 				}
 			}
